@@ -147,7 +147,7 @@ impl Property for C07 {
             1 => (backend(6, 1), gen::fq_special(), gen::fq_special()).prop_map(|(bk, r1, r2)| Case::Two { bk, r1, r2 }),
             // related inputs: the map depends on r^2 only, and r -> 1/(zeta r) negates its output, so these
             // pairs make the two summands equal, opposite, or cancel
-            1 => (backend(1, 1), gen::fq_special(), 0u8..10).prop_map(|(bk, r1, rel)| {
+            1 => (backend(1, 1), gen::fq_special(), 0u8..12).prop_map(|(bk, r1, rel)| {
                 let f = &*Q;
                 let z = &CURVE.zeta;
                 let inv = |x: &N| f.inv(x).unwrap_or_default();
@@ -162,6 +162,15 @@ impl Property for C07 {
                     6 => f.mul(&r, &f.pow(z, &f.trace)),
                     7 => f.mul(&r, &f.sqrt(&f.neg(&N::from(1u32))).unwrap_or_default()),
                     8 => N::zero(),
+                    9 => {
+                        // a "sibling": another input with the same radicand num*den (a cubic in zeta*r0^2)
+                        let rr = f.mul(z, &f.sq(&r));
+                        let d_m_a = f.sub(&CURVE.d, &CURVE.a);
+                        let den = f.mul(&f.sub(&f.mul(&CURVE.d, &rr), &d_m_a), &f.sub(&f.mul(&d_m_a, &rr), &CURVE.d));
+                        let num = f.mul(&f.add(&rr, &N::from(1u32)), &CURVE.a_m_2d);
+                        let sibs = CURVE.elligator_preimages(5, &f.mul(&num, &den));
+                        sibs.into_iter().find(|s| *s != r && *s != f.neg(&r)).unwrap_or_else(|| f.neg(&r))
+                    }
                     _ => inv(&f.mul(&f.sq(z), &r)),
                 };
                 Case::Two { bk, r1: Num(r), r2: Num(r2) }
@@ -201,6 +210,20 @@ impl Property for C07 {
             v.push(Case::Two { bk, r1: Num(N::from(1u32)), r2: Num(N::from(7u32)) });
             v.push(Case::Two { bk, r1: Num(N::from(7u32)), r2: Num(N::from(1u32)) });
             v.push(Case::Two { bk, r1: Num(N::from(5u32)), r2: Num(q - 5u32) });
+            for r in [1u32, 2, 3, 4, 5, 6, 7, 9] {
+                let f = &*Q;
+                let r = N::from(r);
+                let rr = f.mul(&CURVE.zeta, &f.sq(&r));
+                let d_m_a = f.sub(&CURVE.d, &CURVE.a);
+                let den = f.mul(&f.sub(&f.mul(&CURVE.d, &rr), &d_m_a), &f.sub(&f.mul(&d_m_a, &rr), &CURVE.d));
+                let num = f.mul(&f.add(&rr, &N::from(1u32)), &CURVE.a_m_2d);
+                for sib in CURVE.elligator_preimages(5, &f.mul(&num, &den)) {
+                    if sib != r && sib != f.neg(&r) {
+                        v.push(Case::Two { bk, r1: Num(r.clone()), r2: Num(sib.clone()) });
+                        v.push(Case::Two { bk, r1: Num(sib), r2: Num(r.clone()) });
+                    }
+                }
+            }
             for r in [1u32, 2, 5, 7] {
                 let r = N::from(r);
                 let c = Q.inv(&Q.mul(&CURVE.zeta, &r)).unwrap();
